@@ -44,6 +44,12 @@ unfolding (newlines and the TABs starting a continuation line dropped). -/
 theorem C10_unfold (v : Bytes) : unfoldHeader v = Spec.unfold v ∧ (10 : UInt8) ∉ unfoldHeader v :=
   ⟨Proofs.unfoldHeader_eq_spec v, Proofs.unfoldHeader_no_newline v⟩
 
+/-- (audit au2) What `Spec.unfold` is: the words of a TAB-folded value are glued together (RFC 5322 unfolding would
+keep the TAB), a SPACE-folded one keeps its space, an unfolded value keeps its TABs. -/
+example : Spec.unfold (ofString "foo\n\tbar") = ofString "foobar" ∧ Spec.unfold (ofString "foo\n bar") = ofString "foo bar" ∧
+    Spec.unfold (ofString "foo\n\t bar") = ofString "foo bar" ∧ Spec.unfold (ofString "\tfoo\tbar") = ofString "\tfoo\tbar" := by
+  decide +kernel
+
 /-- For every well-formed message and every field name: the values a header condition is
 applied to are the decoded logical values of exactly the occurrences whose name equals the
 requested one case-insensitively, in file order; absent iff there is no such occurrence.
